@@ -7,6 +7,10 @@ use crate::rng::Rng;
 use crate::simalloc::Plan;
 use crate::w1_gen::{gen_w1, Faults, Mix};
 
+/// the decoder spaces are cut into this many chunks each (3 spaces); run indices 0, 32, 64, ...
+/// address them, so any batch of >= 32 * 3 * W5_CHUNKS indices enumerates them completely
+pub const W5_CHUNKS: u32 = 512;
+
 pub const W1_PROPS: [&str; 11] = ["C01", "C02", "C03", "C04", "C06", "C07", "C08", "C09", "C10", "C11", "C12"];
 
 pub struct Sink<'a> {
